@@ -26,6 +26,7 @@ type Engine struct {
 	ctrs   map[string]*Contract // key: funcKey
 	specs  map[string]*SpecFunc // spec functions (global namespace)
 	axioms []*Axiom
+	oldset map[*ssa.Function]map[string]bool
 	ctrSrc []string // contract files read
 	modset map[*ssa.Function]map[string]bool
 	// theories: contracts for functions outside the repo (assumed)
